@@ -44,10 +44,12 @@ const (
 	opRegInit
 	opMarkDone
 	opInitWatch
+	opBulkInsert // N objects with primary keys {'a', H+i}: wide fan-out below the key "a", large transactions
+	opBulkDelete
 	numOpKinds
 )
 
-var opNames = []string{"Begin", "Insert", "InsertWatch", "Modify", "Delete", "DeleteAll", "CAS", "CAD", "Commit", "Abort", "WriteFinished", "Snapshot", "Query", "Watch", "Changes", "Next", "CloseIter", "GC", "RegInit", "MarkDone", "InitWatch"}
+var opNames = []string{"Begin", "Insert", "InsertWatch", "Modify", "Delete", "DeleteAll", "CAS", "CAD", "Commit", "Abort", "WriteFinished", "Snapshot", "Query", "Watch", "Changes", "Next", "CloseIter", "GC", "RegInit", "MarkDone", "InitWatch", "BulkInsert", "BulkDelete"}
 
 type Op struct {
 	K    int      `json:"k"`
@@ -64,6 +66,7 @@ type Op struct {
 	Q    *Query   `json:"q,omitempty"`
 	N    int      `json:"n,omitempty"` // consume count, GC mode, name index
 	P    int      `json:"p,omitempty"` // probe seed for sampled audits
+	objN int      // bulk operations: identity of the element's object
 }
 
 func (o Op) String() string {
@@ -559,7 +562,7 @@ func (in *interp) pickW(i int) *wtxn {
 	return in.ws[((i%len(in.ws))+len(in.ws))%len(in.ws)]
 }
 
-var elidableKinds = map[int]bool{opBegin: true, opInsert: true, opInsertWatch: true, opModify: true, opDelete: true, opDeleteAll: true, opCAS: true, opCAD: true, opCommit: true, opAbort: true, opChanges: true, opRegInit: true, opMarkDone: true}
+var elidableKinds = map[int]bool{opBegin: true, opInsert: true, opInsertWatch: true, opModify: true, opDelete: true, opDeleteAll: true, opCAS: true, opCAD: true, opCommit: true, opAbort: true, opChanges: true, opRegInit: true, opMarkDone: true, opBulkInsert: true, opBulkDelete: true}
 
 func (in *interp) begin(ts []int) *wtxn {
 	max := in.c.MaxTxns
@@ -624,6 +627,9 @@ func (in *interp) newObj(o Op) *Obj {
 	// Key sets are passed on as generated, duplicates included: an indexer may
 	// yield the same key twice and the indexes must cope (the model de-duplicates).
 	obj := &Obj{N: in.step*4 + 1, ID: cloneBytes(o.ID), Val: o.Val}
+	if o.objN != 0 {
+		obj.N = o.objN
+	}
 	for _, x := range o.Us {
 		obj.Us = append(obj.Us, cloneBytes(x))
 	}
@@ -714,6 +720,28 @@ func (in *interp) exec(o Op) string {
 		}
 		w.opIdx = append(w.opIdx, in.step)
 		return in.write(o, w)
+	case opBulkInsert, opBulkDelete:
+		in.markElid()
+		w := in.needW(o)
+		if w == nil {
+			return "nowtxn"
+		}
+		w.opIdx = append(w.opIdx, in.step)
+		n := o.N
+		if o.H+n > 256 {
+			n = 256 - o.H
+		}
+		for i := 0; i < n; i++ {
+			// P=1: no sampled audit inside the transaction (it would iterate the
+			// transaction's trees and freeze the nodes written so far)
+			e := Op{K: opInsert, W: o.W, T: o.T, ID: []byte{'a', byte(o.H + i)}, Tags: o.Tags, Pfx: o.Pfx, Val: o.Val, G: o.G &^ 3, P: 1, objN: 1000000 + in.step*1024 + i*4 + 1}
+			if o.K == opBulkDelete {
+				e.K = opDelete
+			}
+			in.write(e, w)
+		}
+		in.res.class("bulk_write")
+		return fmt.Sprintf("bulk %d", n)
 	case opCommit:
 		in.markElid()
 		if w := in.pickW(o.W); w != nil {
